@@ -151,9 +151,16 @@ const("toOwnedFastUp", vals[0] if len(vals) >= 1 else None, "to_owned_with_scale
 const("toOwnedFastDown", vals[1] if len(vals) >= 2 else None, "to_owned_with_scale: fast path bound (shrinking)")
 expb = (fn_body(lib, r"pub\s+fn\s+exp\s*\(") or "") + "\n" + (fn_body(lib, r"fn\s+exp_untrimmed\s*\(") or "")
 m = re.search(r"impl_division\(term\.int_val\.clone\(\),\s*&factorial,\s*term\.scale,\s*([^;]*?)\)\s*;", expb or "")
-site_ids.append(("expTermPrecision", re.sub(r"\s+", " ", m.group(1)).strip() if m else "MISSING"))
+# the local that holds digits(x) (`let precision = self.digits();` - whatever it is called) is recorded under its usual name
+_m0 = re.search(r"let\s+(\w+)\s*=\s*self\.digits\(\)\s*;", expb or "")
+_dv = _m0.group(1) if _m0 else "precision"
+site_ids.append(("expTermPrecision", re.sub(r"\b%s\b" % _dv, "precision", re.sub(r"\s+", " ", m.group(1)).strip()) if m else "MISSING"))
 const("expTermLiteral", find_int(expb, r"term\.scale,\s*(\d+)\s*\+\s*precision\)"), "exp: literal in the term precision (0 = no literal)") if False else None
-lit = find_int(expb, r"term\.scale,\s*(\d+)\s*\+\s*precision\)")
+# the local that holds digits(x) (`let precision = self.digits();` - whatever it is called)
+_m = re.search(r"let\s+(\w+)\s*=\s*self\.digits\(\)\s*;", expb or "")
+exp_digits_var = _m.group(1) if _m else "precision"
+lit = find_int(expb, r"term\.scale,\s*(\d+)\s*\+\s*" + exp_digits_var + r"\)")
+exp_digits_var = "precision"   # the recorded site string is normalised to this name
 consts.append(("expTermLiteral", lit if lit is not None else 0, "exp: literal added to digits(x) in the per-term division precision (0: no bare literal)"))
 const("expGuardDigits", find_int(expb, r"with_prec\(target_precision\s*\+\s*(\d+)\)"), "exp: guard digits of the convergence test")
 m = re.search(r"let\s+target_precision\s*=\s*([A-Za-z_0-9]+)\s*;", expb or "")
@@ -170,6 +177,11 @@ for name in ("sqrt", "cbrt", "inverse"):
 addi = strip_comments(read("src/arithmetic/addition.rs"))
 ab = fn_body(addi, r"fn\s+add_bigdecimal_refs")
 vals = re.findall(r"\.max\(0\)\.min\((\d+)\)", ab or "")
+if not vals:
+    # the two zero-operand blocks factored into one private helper of the same file: one clamp serves both sides
+    vals = re.findall(r"\.max\(0\)\.min\((\d+)\)", addi)
+    if len(vals) == 1:
+        vals = [vals[0], vals[0]]
 const("addZeroClampR", vals[0] if len(vals) >= 1 else None, "add_bigdecimal_refs: rhs zero scale clamp")
 const("addZeroClampL", vals[1] if len(vals) >= 2 else None, "add_bigdecimal_refs: lhs zero scale clamp")
 
@@ -436,8 +448,8 @@ L.append("/-- `zero_right_pad_integer_ascii_digits`: zero count above which an i
 L.append("def noPadLimit (cfg : Config) : Nat := %s" % npl_expr)
 L.append("")
 etp = dict(site_ids).get("expTermPrecision", "MISSING")
-m1 = re.fullmatch(r"(\d+) \+ precision", etp)
-m2 = re.fullmatch(r"target_precision \+ (\d+) \+ precision", etp)
+m1 = re.fullmatch(r"(\d+) \+ " + exp_digits_var, etp)
+m2 = re.fullmatch(r"target_precision \+ (\d+) \+ " + exp_digits_var, etp)
 if m1:
     etp_expr = "%s + digits" % m1.group(1)
 elif m2:
